@@ -434,7 +434,7 @@ def r6(R):
 
 
 @rule('C07.R7', 'the mapping storage keeps the newest revision not later '
-      'than the pack time and sweeps from the root', props=['C15'],
+      'than the pack time and sweeps from the root', props=['C08', 'C15'],
       min_instances=1)
 def r7(R):
     cls = R.prog.cls(MS)
